@@ -629,10 +629,11 @@ class Array(metaclass=MetaArray):
         shape = self._shape
         cshape = [shape[ii] for ii in self._order]
         if hasattr(self._itemtype, "_dtype"):
+            # axis ii of the index space is axis order.index(ii) in memory
             arr = self._buffer.to_nplike(
                 self._offset + self._data_offset, self._itemtype._dtype, cshape
-            ).transpose(self._order)
-            assert arr.strides == self._strides
+            ).transpose(np.argsort(self._order))
+            assert arr.size == 0 or arr.strides == tuple(self._strides)
             return arr
         else:
             raise NotImplementedError
@@ -641,10 +642,11 @@ class Array(metaclass=MetaArray):
         shape = self._shape
         cshape = [shape[ii] for ii in self._order]
         if hasattr(self._itemtype, "_dtype"):
+            # axis ii of the index space is axis order.index(ii) in memory
             arr = self._buffer.to_nparray(
                 self._offset + self._data_offset, self._itemtype._dtype, cshape
-            ).transpose(self._order)
-            assert arr.strides == self._strides
+            ).transpose(np.argsort(self._order))
+            assert arr.size == 0 or arr.strides == tuple(self._strides)
             return arr
         else:
             raise NotImplementedError
